@@ -103,6 +103,60 @@ func atomBounds(hyps []*Term) map[*Term]*ival {
 type boundCalc struct {
 	atoms map[*Term]*ival
 	memo  map[*Term]*ival
+	arrs  map[*Term]*ival // element bounds of arrays, from quantified range facts (hints only)
+}
+
+// arrayBounds extracts element bounds from hypotheses of the shape
+//   forall k. lo<=k<hi => (and ... (<= c (select A k)) (< (select A k) C) ...)
+// They are used only to instantiate lemma hints whose premises the solver proves itself.
+func arrayBounds(hyps []*Term) map[*Term]*ival {
+	out := map[*Term]*ival{}
+	note := func(a *Term, lo, hi *big.Int) {
+		v := out[a]
+		if v == nil {
+			v = &ival{}
+			out[a] = v
+		}
+		if lo != nil && (v.lo == nil || lo.Cmp(v.lo) > 0) {
+			v.lo = lo
+		}
+		if hi != nil && (v.hi == nil || hi.Cmp(v.hi) < 0) {
+			v.hi = hi
+		}
+	}
+	var scanBody func(t *Term)
+	scanBody = func(t *Term) {
+		switch t.Op {
+		case "and":
+			for _, a := range t.Args {
+				scanBody(a)
+			}
+		case "=>":
+			scanBody(t.Args[1])
+		case "forall":
+			scanBody(t.Args[0])
+		case "<=":
+			a, b := t.Args[0], t.Args[1]
+			if a.IsConst() && b.Op == "select" && b.Args[0].Op == "var" {
+				note(b.Args[0], a.Val, nil)
+			} else if b.IsConst() && a.Op == "select" && a.Args[0].Op == "var" {
+				note(a.Args[0], nil, b.Val)
+			}
+		case "<":
+			a, b := t.Args[0], t.Args[1]
+			if a.IsConst() && b.Op == "select" && b.Args[0].Op == "var" {
+				note(b.Args[0], new(big.Int).Add(a.Val, bigOne), nil)
+			} else if b.IsConst() && a.Op == "select" && a.Args[0].Op == "var" {
+				note(a.Args[0], nil, new(big.Int).Sub(b.Val, bigOne))
+			}
+		}
+	}
+	for _, h := range hyps {
+		if h.Op == "forall" {
+			scanBody(h)
+		}
+	}
+	return out
 }
 
 func (b *boundCalc) of(t *Term) *ival {
@@ -126,6 +180,13 @@ func (b *boundCalc) calc(t *Term) *ival {
 	switch t.Op {
 	case "const":
 		return &ival{t.Val, t.Val}
+	case "select":
+		if b.arrs != nil && t.Args[0].Op == "var" {
+			if v, ok := b.arrs[t.Args[0]]; ok {
+				return &ival{v.lo, v.hi}
+			}
+		}
+		return &ival{}
 	case "+":
 		x, y := b.of(t.Args[0]), b.of(t.Args[1])
 		r := &ival{}
@@ -202,7 +263,7 @@ func (b *boundCalc) calc(t *Term) *ival {
 
 // boundLemmas returns lemma instances for the products in the VC.
 func boundLemmas(hyps []*Term, all []*Term) []*Term {
-	bc := &boundCalc{atoms: atomBounds(hyps), memo: map[*Term]*ival{}}
+	bc := &boundCalc{atoms: atomBounds(hyps), memo: map[*Term]*ival{}, arrs: arrayBounds(hyps)}
 	seen := map[*Term]bool{}
 	var out []*Term
 	var rec func(t *Term, underQ bool)
